@@ -126,9 +126,9 @@ def _input(eng, st, name, kind):
         if eng.imode == "bv":
             v = SV(z3.BitVec(name, n))
         else:
-            e = z3.Int(name)
-            eng.side.append(z3.And(e >= 0, e < (1 << n)))
-            v = SV(e, w=n)
+            e = z3.Int(name)       # vf_i64 / vf_i32 are signed in the harness API
+            eng.side.append(z3.And(e >= -(1 << (n - 1)), e < (1 << (n - 1))))
+            v = SV(None, w=n, s=e)
     eng.inputs[name] = (v, kind)
     eng.input_order.append(name)
     return v
@@ -193,6 +193,14 @@ def vf_angle(eng, st, fr, ins, a):
     return v
 
 
+@model("vf_enum")
+def vf_enum(eng, st, fr, ins, a):
+    v = a[0]
+    if isinstance(v, int):
+        return v
+    return eng.concrete_int(st, v, "vf_enum value") & (2 ** 64 - 1)
+
+
 @model("vf_assume")
 def vf_assume(eng, st, fr, ins, a):
     c = a[0]
@@ -221,6 +229,10 @@ def _check(eng, st, a, lemma):
         return None
     if c is UNDEF:
         raise Inconclusive("check(undef) %s" % cid)
+    if z3.is_true(z3.simplify(c.e)):
+        eng.stats["simplified_true"] = eng.stats.get("simplified_true", 0) + 1
+        eng.simplified.append((cid, eng.cur_entry, st.pid))
+        return None
     eng.add_obligation(st, cid, "lemma" if lemma else "check", c.e)
     if lemma:
         st.assume(c.e)
@@ -420,6 +432,16 @@ def m_nop(eng, st, fr, ins, a):
        "__cxa_free_exception", "__cxa_end_catch", "_ZNSt8ios_baseD2Ev", "__cxa_thread_atexit")
 def m_nop0(eng, st, fr, ins, a):
     return 0 if ins.dest else None
+
+
+@prefix("llvm.load.relative")
+def m_load_relative(eng, st, fr, ins, a):
+    off = a[1]
+    if not isinstance(off, int):
+        off = eng.concrete_int(st, off, "relative table offset")
+    off = to_signed(off, 64)
+    rel = eng.load(st, a[0] + off, ir.I32)
+    return (a[0] + to_signed(rel, 32)) & (2 ** 64 - 1)
 
 
 @prefix("llvm.stacksave")
